@@ -197,4 +197,123 @@ theorem specRestartPinned_self [DecidableEq N] (t : Key) (fields : Dict N)
       obtain ⟨v, hv⟩ := dGet_of_dHas (hinv a ha)
       simp [hv]
 
+/-! ## typed objects inside values (getter view) -/
+
+theorem dHas_stripTagM (k : Key) : (r : Dict N) → dHas objectTag r = false → dHas k (stripTagM r) = dHas k r
+  | [], _ => rfl
+  | (k', v) :: r, h => by
+    simp [dHas] at h
+    have hne : ¬ k' = objectTag := fun e => h.1 e.symm
+    simp [stripTagM, hne, dHas, dHas_stripTagM k r h.2]
+
+theorem dGet_stripTagM (k : Key) : (r : Dict N) → dHas objectTag r = false →
+    dGet? k (stripTagM r) = (dGet? k r).map stripTag
+  | [], _ => rfl
+  | (k', v) :: r, h => by
+    simp [dHas] at h
+    have hne : ¬ k' = objectTag := fun e => h.1 e.symm
+    simp only [stripTagM, hne, if_false, dGet?]
+    by_cases hk : k = k'
+    · simp [hk]
+    · simp [hk, dGet_stripTagM k r h.2]
+
+theorem dHas_of_dGet_some {k : Key} : (d : Dict N) → {v : JValue N} → dGet? k d = some v → dHas k d = true
+  | [], _, h => by simp [dGet?] at h
+  | (k', v') :: r, v, h => by
+    by_cases hk : k = k'
+    · simp [dHas, hk]
+    · simp [dGet?, hk] at h
+      simp [dHas, hk, dHas_of_dGet_some r h]
+
+mutual
+theorem typed_roundtrip_aux (known : Key → Bool) : (t : JValue N) → wellTagged known t = true →
+    deserializeT known false (stripTag t) = t
+  | .arr xs, h => by
+    simp only [wellTagged] at h
+    simp [stripTag, deserializeT, typed_roundtrip_auxL known xs h]
+  | .obj [], _ => by simp [stripTag, stripTagM, deserializeT, deserializeTM, dHas]
+  | .obj ((k, v) :: r), h => by
+    by_cases hk : k = objectTag
+    · simp only [wellTagged, hk, if_true, Bool.and_eq_true, Bool.not_eq_true'] at h
+      obtain ⟨⟨⟨hv, hno⟩, hty⟩, hm⟩ := h
+      have hvb : v = .bool true := by
+        cases v with
+        | bool b => cases b <;> simp at hv ⊢
+        | _ => simp at hv
+      cases hg : dGet? typeKey r with
+      | none => simp [hg] at hty
+      | some tv =>
+        cases tv with
+        | str s =>
+          simp only [hg] at hty
+          have hg' : dGet? typeKey (stripTagM r) = some (.str s) := by
+            rw [dGet_stripTagM typeKey r hno, hg]; simp [stripTag]
+          have hh : dHas typeKey (stripTagM r) = true := dHas_of_dGet_some _ hg'
+          simp [stripTag, stripTagM, hk, deserializeT, hh, hg', hty, typed_roundtrip_auxM known r hm hno, hvb]
+        | _ => simp [hg] at hty
+    · simp only [wellTagged, hk, if_false, Bool.and_eq_true, Bool.not_eq_true'] at h
+      obtain ⟨⟨⟨hno, hnt⟩, hv⟩, hm⟩ := h
+      have hnt' : dHas typeKey ((k, stripTag v) :: stripTagM r) = false := by
+        simp only [dHas] at hnt ⊢
+        rw [dHas_stripTagM typeKey r hno]
+        exact hnt
+      simp [stripTag, stripTagM, hk, deserializeT, hnt', deserializeTM, typed_roundtrip_aux known v hv,
+        typed_roundtrip_auxM known r hm hno]
+  | .null, _ => rfl
+  | .bool _, _ => rfl
+  | .num _, _ => rfl
+  | .str _, _ => rfl
+theorem typed_roundtrip_auxL (known : Key → Bool) : (xs : List (JValue N)) → wellTaggedL known xs = true →
+    deserializeTL known false (stripTagL xs) = xs
+  | [], _ => rfl
+  | x :: xs, h => by
+    simp [wellTaggedL] at h
+    simp [stripTagL, deserializeTL, typed_roundtrip_aux known x h.1, typed_roundtrip_auxL known xs h.2]
+theorem typed_roundtrip_auxM (known : Key → Bool) : (kvs : Dict N) → wellTaggedM known kvs = true →
+    dHas objectTag kvs = false → deserializeTM known false (stripTagM kvs) = kvs
+  | [], _, _ => rfl
+  | (k, v) :: r, h, hno => by
+    simp [wellTaggedM] at h
+    simp [dHas] at hno
+    have hne : ¬ k = objectTag := fun e => hno.1 e.symm
+    simp [stripTagM, hne, deserializeTM, typed_roundtrip_aux known v h.1, typed_roundtrip_auxM known r h.2 hno.2]
+end
+
+mutual
+theorem stripTag_deserializeT_aux (known : Key → Bool) : (v : JValue N) → noTagKey v = true →
+    stripTag (deserializeT known false v) = deserialize known v
+  | .arr xs, h => by
+    simp only [noTagKey] at h
+    simp [deserializeT, deserialize, stripTag, stripTag_deserializeT_auxL known xs h]
+  | .obj kvs, h => by
+    simp only [noTagKey] at h
+    have hm := stripTag_deserializeT_auxM known kvs h
+    unfold deserializeT deserialize
+    by_cases ht : dHas typeKey kvs = true
+    · simp only [ht, Bool.not_true, Bool.or_false, Bool.false_eq_true, if_false, if_true]
+      split
+      · rename_i s hs
+        by_cases hk : known s = true
+        · simp [hk, stripTag, stripTagM, hm]
+        · simp [hk, stripTag]
+      · simp [stripTag]
+    · simp [ht, stripTag, hm]
+  | .null, _ => rfl
+  | .bool _, _ => rfl
+  | .num _, _ => rfl
+  | .str _, _ => rfl
+theorem stripTag_deserializeT_auxL (known : Key → Bool) : (xs : List (JValue N)) → noTagKeyL xs = true →
+    stripTagL (deserializeTL known false xs) = deserializeL known xs
+  | [], _ => rfl
+  | x :: xs, h => by
+    simp [noTagKeyL] at h
+    simp [deserializeTL, deserializeL, stripTagL, stripTag_deserializeT_aux known x h.1, stripTag_deserializeT_auxL known xs h.2]
+theorem stripTag_deserializeT_auxM (known : Key → Bool) : (kvs : Dict N) → noTagKeyM kvs = true →
+    stripTagM (deserializeTM known false kvs) = deserializeM known kvs
+  | [], _ => rfl
+  | (k, v) :: r, h => by
+    simp [noTagKeyM] at h
+    simp [deserializeTM, deserializeM, stripTagM, h.1.1, stripTag_deserializeT_aux known v h.1.2, stripTag_deserializeT_auxM known r h.2]
+end
+
 end Icinga.C14
